@@ -119,6 +119,29 @@ func propC04(c *Ctx) {
 		c.seed("repeat", eng, "TREZOR")
 		c.seed("repeat", eng+"x", "TREZOR")
 	}
+	// arguments made (almost) only of the code points with the largest NFKD expansion, and Han-only
+	// arguments containing compatibility ideographs / radicals (which do decompose)
+	buildPreimages()
+	pick := func(pool []string, k int) string {
+		var sb strings.Builder
+		for i := 0; i < k; i++ {
+			sb.WriteString(pool[c.rng.Intn(len(pool))])
+		}
+		return sb.String()
+	}
+	for k := 1; k <= 8; k++ {
+		c.seed("high-expansion", eng, pick(highExpansion, k))
+		c.seed("high-expansion", pick(highExpansion, k), "p")
+		c.seed("high-expansion", eng, strings.Repeat("ﷺ", k))
+		c.seed("han-compat-only", eng, pick(hanCompat, k))
+		c.seed("han-compat-only", pick(hanCompat, k)+" "+pick(hanCompat, 2), pick(hanCompat, k))
+	}
+	for _, li := range []int{0, 1} {
+		zh := strings.ReplaceAll(c.specSentence(int64(langVals[li]), c.randBytes(32)), "　", " ")
+		if v := c.respellByPreimages(zh, 100); v != "" {
+			c.seed("han-compat-only", v, pick(hanCompat, 3))
+		}
+	}
 	c.seed("non-mnemonic", "this is not a mnemonic at all", "pw")
 	c.seed("non-mnemonic", strings.Repeat("abandon ", 12), "")
 	c.seed("non-mnemonic", "zoo", "")
@@ -330,6 +353,16 @@ func propC11(c *Ctx) {
 					Impl: got, Spec: base, Detail: "equal NFKD forms (compatibility re-spelling), different seeds"})
 			}
 		}
+	}
+	buildPreimages()
+	for k := 1; k <= 6; k++ {
+		var hp, hh strings.Builder
+		for i := 0; i < k; i++ {
+			hp.WriteString(highExpansion[c.rng.Intn(len(highExpansion))])
+			hh.WriteString(hanCompat[c.rng.Intn(len(hanCompat))])
+		}
+		group("high-expansion", "legal winner thank year wave sausage worth useful legal winner thank yellow", hp.String())
+		group("han-compat-only", hh.String(), hh.String())
 	}
 	ja := c.specSentence(int64(langVals[5]), c.randBytes(16))
 	a := implSeed(ja, "メートルガバヴァぱばぐゞちぢ十人十色")
